@@ -498,8 +498,81 @@ def run_names(c, rec):
             require(out.name == want, "the likelihood of a conditioned copy does not carry the random-variable name", got=out.name, want=want)
 
 
+# ----------------------------------------------------------------------------- looking at an original does not change what it gives later
+
+OBS_FAMILIES = ["Normal", "Gaussian_scalar_cov", "Gamma", "Laplace", "Cauchy", "Lognormal", "Beta", "Uniform", "Gaussian_geom"]
+OBSERVATIONS = ["dim", "geometry", "name", "is_cond", "parameter_names", "conditioning_variables", "repr", "mutable_variables"]
+
+
+@st.composite
+def observe_cases(draw, tier="quick"):
+    return {"family": draw(st.sampled_from(OBS_FAMILIES)), "n": draw(st.integers(1, 4)),
+            "obs": draw(st.lists(st.sampled_from(OBSERVATIONS), min_size=1, max_size=4)),
+            "m": draw(gen.vec(4, 0.2, 1.5)), "value": draw(gen.vec(4, 0.1, 0.9)), "explicit_name": draw(st.booleans())}
+
+
+def _obs_family(c):
+    import cuqi
+    D = cuqi.distribution
+    kw = {"name": "zz"} if c["explicit_name"] else {}
+    f = c["family"]
+    if f == "Normal":
+        return D.Normal(lambda mu_: mu_, 1.3, **kw)
+    if f == "Gaussian_scalar_cov":
+        return D.Gaussian(lambda mu_: mu_, 0.8, **kw)
+    if f == "Gaussian_geom":
+        return D.Gaussian(lambda mu_: mu_, 0.8, geometry=c["n"], **kw)
+    if f == "Gamma":
+        return D.Gamma(shape=lambda mu_: mu_ + 1.0, rate=2.0, **kw)
+    if f == "Laplace":
+        return D.Laplace(lambda mu_: mu_, 0.7, **kw)
+    if f == "Cauchy":
+        return D.Cauchy(lambda mu_: mu_, 0.7, **kw)
+    if f == "Lognormal":
+        return D.Lognormal(lambda mu_: mu_, 0.8, **kw)
+    if f == "Beta":
+        return D.Beta(lambda mu_: mu_ + 0.5, 2.0, **kw)
+    return D.Uniform(lambda mu_: mu_ - 2.0, 3.0, **kw)
+
+
+def run_observe(c, rec):
+    """a conditioning of an original gives the same object whether or not the original was looked at (dimension, geometry, name,
+    variable lists, repr) before: reference = the same conditioning on a freshly built, never inspected twin"""
+    import cuqi
+    n = c["n"]
+    tags = {"family": c["family"], "n": n, "obs": ",".join(sorted(set(c["obs"])))}
+    if rec.classify(tags, True):
+        return
+    m = A(c["m"])[:n]
+    v = A(c["value"])[:n]
+
+    def behaviour(d):
+        out = {}
+        for key, fn in (("dim", lambda: d.dim), ("geom", lambda: type(d.geometry).__name__ + str(d.geometry.par_shape)),
+                        ("logd", lambda: fval(d.logd(v))), ("sample", lambda: fval(d.sample(2, rng=np.random.RandomState(3)).samples))):
+            r, val = refuses(fn)
+            out[key] = ("refused", type(val).__name__) if r else val
+        return out
+
+    fresh = must(lambda: _obs_family(c), "constructing a conditional distribution")
+    want = behaviour(must(lambda: fresh(mu_=m.copy()), "conditioning a conditional distribution"))
+    looked = _obs_family(c)
+    for o in c["obs"]:
+        refuses({"dim": lambda: looked.dim, "geometry": lambda: looked.geometry, "name": lambda: looked.name, "is_cond": lambda: looked.is_cond,
+                 "parameter_names": lambda: looked.get_parameter_names(), "conditioning_variables": lambda: looked.get_conditioning_variables(),
+                 "repr": lambda: repr(looked), "mutable_variables": lambda: looked.get_mutable_variables()}[o])
+    got = behaviour(must(lambda: looked(mu_=m.copy()), "conditioning a conditional distribution after it was inspected"))
+    for key in want:
+        a, b = got[key], want[key]
+        same = (a == b) if isinstance(a, (tuple, str, int, type(None))) or isinstance(b, (tuple, str, int, type(None))) else \
+            (np.shape(a) == np.shape(b) and close(a, b, 1e-12))
+        require(bool(same), f"after the original was inspected ({', '.join(c['obs'])}) a conditioned copy gives another '{key}' than the same conditioning of a "
+                "never inspected original", got=jsonable(a), never_inspected=jsonable(b))
+
+
 SUBCHECKS = [
     SubCheck("C11/immutability_machine", run_trace, machine=make_machine, n={"quick": 600, "thorough": 6000}, shards={"quick": 12, "thorough": 16},
              steps={"quick": 25, "thorough": 50}),
+    SubCheck("C11/inspection", run_observe, strategy=observe_cases, n={"quick": 400, "thorough": 6000}, shards={"quick": 2, "thorough": 8}),
     SubCheck("C11/copy_names", run_names, strategy=name_cases, n={"quick": 400, "thorough": 6000}, shards={"quick": 2, "thorough": 8}),
 ]
